@@ -251,6 +251,6 @@ def obligations(tier: str):
         for cls in ("RI", "RD", "RD2", "RS") + (("RF", "RW", "RV", "RL") if T else ()):
             pipe(f"{rep}_f5_{cls}_create", fixture="f5", grammar_fn="g_" + cls, rep=rep, decider="grow", max_depth=3, gene_length=gl)
         pipe(f"{rep}_f2_create", fixture="f2", rep=rep, decider="grow", max_depth=2 if rep != "dsge" else 3, gene_length=gl)
-    pipe("stackp_f1p_postponed_annotations_create", fixture="f1p", rep="stack", gene_length=6, failures_limit=1, gene_fuel=8 if not T else 12, timeout=150)
+    pipe("stackp_f1p_postponed_annotations_create", fixture="f1p", rep="stack", gene_length=6 if T else 4, failures_limit=1, gene_fuel=12 if T else 7, timeout=150)
     pipe("stack_f1_create", fixture="f1", rep="stack", gene_length=3 if not T else 4, failures_limit=1, gene_fuel=8 if not T else 12, timeout=150)
     return [o for o in obs if o is not None]
